@@ -1,6 +1,8 @@
 import XrsVerif.Proofs.ViewshedSweep
 import XrsVerif.Proofs.ViewshedDelExact
 import XrsVerif.Proofs.ViewshedOutput
+import XrsVerif.Proofs.ViewshedEvents
+import XrsVerif.Proofs.ViewshedDiscipline
 import XrsVerif.Gen.ViewshedFacts
 import Mathlib.Tactic.Positivity
 /-
@@ -46,6 +48,31 @@ import Mathlib.Tactic.Positivity
                                  still holds, so `query_decides` still applies).
     * the output rule            observer 180, invisible -1, visible = the vertical angle, which lies in
                                  (0, 180) and is 90 exactly for a level target, over hypotheses on `atan`.
+    * the event geometry (section 6, `Model/ViewshedEvents.lean`, exact integers / rationals, for ALL raster sizes,
+      observer positions and terrains):
+        `three_events_per_cell`, `event_count`   every non-observer cell yields exactly ENTER, CENTER, EXIT;
+        `enter_corner_smallest_exit_corner_largest`
+                                 which corner `_calc_event_pos` calls entering / exiting (the if-chain is read from the
+                                 source) IS the corner of smallest / largest bearing, by exact cross products;
+        `initial_iff_span_contains_bearing_zero`, `initial_status_set`
+                                 the cells put into the status structure before the sweep are exactly those whose span
+                                 contains bearing 0: the observer's row, strictly east;
+        `corner_elevation_local`, `corner_elevation_value`, `corner_cells_are_the_block_at_the_corner`
+                                 a corner elevation is the mean of the 2 x 2 block at the corner (own elevation at the
+                                 border) and depends on nothing else;
+        `initial_fill_uses_corner_elevations`, `init_fill_buffer_written_after_corner_elevations`
+                                 the observer-row buffer that seeds the status structure carries those corner elevations
+                                 (model), and the source writes it after computing them (fact read from the source);
+        `events_sorted`, `cell_events_in_sweep_order`
+                                 the lexsort order (bearing by half plane + cross product, then type) is a total preorder;
+                                 in the sorted list a cell's events come ENTER, CENTER, EXIT -- on the east ray CENTER,
+                                 EXIT, ENTER;
+        `cell_operation_sequence`, `insert_delete_counts`, `sweep_discipline`, `sweep_without_initial_fill_breaks`
+                                 over initial fill + sweep every cell is inserted, queried, deleted in this order (east ray:
+                                 and re-inserted at the very end); an insertion never meets an active cell, a query or
+                                 deletion always does; without the initial fill this fails.
+      NOT in the model: the float value of a bearing (`atan`), of a gradient (`atan`, `sqrt`) -- compared by seam 0 / the
+      geometric oracle of the correspondence; NaN terrains (outside the property's quantifier).
 -/
 set_option linter.unusedSectionVars false
 set_option linter.unusedVariables false
@@ -441,5 +468,254 @@ theorem vertical_angle_range (H : TrigHyp K) (ve d2 e : K) (hd : 0 < d2) :
       fun _ => ⟨by linarith, by linarith⟩⟩
 
 end
+
+/-! ### 6. the event geometry (Model/ViewshedEvents.lean; exact integers / rationals, compared with the real
+    `_init_event_list`, `np.lexsort` and the interpreted sweep by seam 0 of the correspondence) -/
+
+section Events
+open XrsVerif.ViewshedEvents
+
+/-- the event codes the model uses are the source's -/
+theorem event_codes :
+    Gen.Viewshed.ENTERING_EVENT = 1 ∧ Gen.Viewshed.CENTER_EVENT = 0 ∧ Gen.Viewshed.EXITING_EVENT = -1 := by decide
+
+/-- **every non-observer cell of the raster yields exactly three events** -- its ENTER, CENTER and EXIT event, generated in
+    this order -- and the observer's cell and anything outside the raster yields none; for all raster sizes, observer
+    positions and terrains -/
+theorem three_events_per_cell (T : Int → Int → Rat) (h w : Nat) (vr vc : Int) (r c : Nat) :
+    (eventList T h w vr vc).filter (ofCell r c) =
+      if r < h ∧ c < w ∧ ¬((r : Int) = vr ∧ (c : Int) = vc)
+      then [mkEvent T h w vr vc r c 1, mkEvent T h w vr vc r c 0, mkEvent T h w vr vc r c (-1)] else [] :=
+  eventList_filter_cell T h w vr vc r c
+
+/-- hence `3 * (rows * cols - 1)` events in all, for an observer inside the raster -/
+theorem event_count (T : Int → Int → Rat) (h w vr vc : Nat) (hr : vr < h) (hc : vc < w) :
+    (eventList T h w vr vc).length + 3 = 3 * (h * w) := by
+  unfold eventList
+  have inner : ∀ i : Nat, ((List.range w).flatMap fun (j : Nat) =>
+      if (i : Int) = (vr : Int) ∧ (j : Int) = (vc : Int) then [] else cellEvents T h w vr vc i j).length =
+        if i = vr then (w - 1) * 3 + 0 else (w - 1) * 3 + 3 := by
+    intro i
+    by_cases hi : i = vr
+    · subst hi
+      rw [length_flatMap_range_one_exception w vc hc _ 3 0]
+      · simp
+      · intro j hj
+        have : ¬ ((j : Int) = (vc : Int)) := by omega
+        simp [this, cellEvents]
+      · simp
+    · have hi' : ¬ ((i : Int) = (vr : Int)) := by omega
+      simp only [hi, if_false]
+      rw [length_flatMap_range_one_exception w vc hc _ 3 3]
+      · intro j _; simp [hi', cellEvents]
+      · simp [hi', cellEvents]
+  rw [length_flatMap_range_one_exception h vr hr _ ((w - 1) * 3 + 3) ((w - 1) * 3 + 0)]
+  · obtain ⟨h', rfl⟩ : ∃ h', h = h' + 1 := ⟨h - 1, by omega⟩
+    obtain ⟨w', rfl⟩ : ∃ w', w = w' + 1 := ⟨w - 1, by omega⟩
+    simp only [Nat.add_sub_cancel]
+    ring
+  · intro i hi; rw [inner i]; simp [hi]
+  · rw [inner vr]; simp
+
+/-- non-vacuity: a 2 x 3 raster seen from (1, 1) -/
+example : (eventList (fun i j => (i + 2 * j : Int)) 2 3 1 1).length = 15 := by decide
+
+/-- **the entering corner has the smaller bearing, the exiting corner the larger** -- stated with exact cross products of
+    the doubled vectors from the observer (x east, y north; `cross p q > 0` iff `q` is counter-clockwise of `p`):
+    for every cell other than the observer's, both corners are corners of the cell (offsets ±1/2), the entering corner is
+    strictly clockwise of the centre and the exiting corner strictly counter-clockwise, and among all four corners the
+    entering one is the most clockwise and the exiting one the most counter-clockwise; every corner lies within 90° of
+    the centre's direction, so "clockwise of" is an order on them. -/
+theorem enter_corner_smallest_exit_corner_largest (dr dc : Int) (hne : dr ≠ 0 ∨ dc ≠ 0) :
+    ((posOff 1 dr dc).1 = 1 ∨ (posOff 1 dr dc).1 = -1) ∧ ((posOff 1 dr dc).2 = 1 ∨ (posOff 1 dr dc).2 = -1) ∧
+    ((posOff (-1) dr dc).1 = 1 ∨ (posOff (-1) dr dc).1 = -1) ∧ ((posOff (-1) dr dc).2 = 1 ∨ (posOff (-1) dr dc).2 = -1) ∧
+    0 < cross (2 * dc + (posOff 1 dr dc).2) (-(2 * dr + (posOff 1 dr dc).1)) (2 * dc) (-(2 * dr)) ∧
+    0 < cross (2 * dc) (-(2 * dr)) (2 * dc + (posOff (-1) dr dc).2) (-(2 * dr + (posOff (-1) dr dc).1)) ∧
+    ∀ oy ox : Int, (oy = 1 ∨ oy = -1) → (ox = 1 ∨ ox = -1) →
+      0 ≤ cross (2 * dc + (posOff 1 dr dc).2) (-(2 * dr + (posOff 1 dr dc).1)) (2 * dc + ox) (-(2 * dr + oy)) ∧
+      0 ≤ cross (2 * dc + ox) (-(2 * dr + oy)) (2 * dc + (posOff (-1) dr dc).2) (-(2 * dr + (posOff (-1) dr dc).1)) ∧
+      0 < (2 * dc) * (2 * dc + ox) + (2 * dr) * (2 * dr + oy) := by
+  have hdot : ∀ oy ox : Int, (oy = 1 ∨ oy = -1) → (ox = 1 ∨ ox = -1) →
+      0 < (2 * dc) * (2 * dc + ox) + (2 * dr) * (2 * dr + oy) := by
+    intro oy ox hy hx
+    obtain ⟨a1, a2⟩ := int_le_sq dr
+    obtain ⟨b1, b2⟩ := int_le_sq dc
+    have hpos : 1 ≤ dr * dr + dc * dc := by
+      rcases hne with h | h
+      · have : 1 ≤ dr * dr := by rcases Int.lt_or_gt_of_ne h with h | h <;> nlinarith
+        nlinarith [mul_self_nonneg dc]
+      · have : 1 ≤ dc * dc := by rcases Int.lt_or_gt_of_ne h with h | h <;> nlinarith
+        nlinarith [mul_self_nonneg dr]
+    rcases hy with rfl | rfl <;> rcases hx with rfl | rfl <;> nlinarith
+  rcases posOff_cases dr dc with ⟨hr, hc, e1, e2⟩ | ⟨hr, hc, e1, e2⟩ | ⟨hr, hc, e1, e2⟩ | ⟨hr, hc, e1, e2⟩ |
+      ⟨hr, hc, e1, e2⟩ | ⟨hr, hc, e1, e2⟩ | ⟨hr, hc, e1, e2⟩ | ⟨hr, hc, e1, e2⟩ | ⟨hr, hc, e1, e2⟩ <;>
+    first
+    | (exfalso; omega)
+    | (rw [e1, e2]; dsimp only
+       refine ⟨by decide, by decide, by decide, by decide, ?_, ?_, fun oy ox hy hx => ⟨?_, ?_, hdot oy ox hy hx⟩⟩ <;>
+       simp only [cross_corner_centre, cross_centre_corner, cross_corner_corner] <;>
+       first | omega | (rcases hy with rfl | rfl <;> rcases hx with rfl | rfl <;> omega))
+
+/-- **a cell is in the status structure when the sweep starts iff its span contains bearing 0**: the east ray `(1, 0)`
+    lies strictly between the entering and the exiting corner exactly for the cells of the observer's row strictly east
+    of the observer -/
+theorem initial_iff_span_contains_bearing_zero (dr dc : Int) (hne : dr ≠ 0 ∨ dc ≠ 0) :
+    (0 < cross (2 * dc + (posOff 1 dr dc).2) (-(2 * dr + (posOff 1 dr dc).1)) 1 0 ∧
+     0 < cross 1 0 (2 * dc + (posOff (-1) dr dc).2) (-(2 * dr + (posOff (-1) dr dc).1))) ↔ (dr = 0 ∧ 0 < dc) := by
+  rcases posOff_cases dr dc with ⟨hr, hc, e1, e2⟩ | ⟨hr, hc, e1, e2⟩ | ⟨hr, hc, e1, e2⟩ | ⟨hr, hc, e1, e2⟩ |
+      ⟨hr, hc, e1, e2⟩ | ⟨hr, hc, e1, e2⟩ | ⟨hr, hc, e1, e2⟩ | ⟨hr, hc, e1, e2⟩ | ⟨hr, hc, e1, e2⟩ <;>
+    rw [e1, e2] <;> dsimp only <;> simp only [cross] <;> omega
+
+/-- the columns put into the status structure before the sweep (`for i in range(vp_col + 1, n_cols)`) -/
+theorem mem_initialCols (w : Nat) (vc j : Int) : j ∈ initialCols w vc ↔ vc < j ∧ 0 ≤ j ∧ j < w := by
+  simp only [initialCols, List.mem_filter, List.mem_map, List.mem_range, decide_eq_true_eq]
+  constructor
+  · rintro ⟨⟨k, hk, rfl⟩, hv⟩; omega
+  · rintro ⟨hv, h0, hw⟩; exact ⟨⟨j.toNat, by omega, by omega⟩, hv⟩
+
+/-- the two together: for a cell `(r, c)` of the raster other than the observer's, "`(r, c)` is inserted by the initial
+    fill" is equivalent to "the span of `(r, c)` contains bearing 0" -/
+theorem initial_status_set (w : Nat) (vr vc r c : Int) (hc : 0 ≤ c ∧ c < w) (hne : r ≠ vr ∨ c ≠ vc) :
+    (r = vr ∧ c ∈ initialCols w vc) ↔
+      (0 < cross (2 * (c - vc) + (posOff 1 (r - vr) (c - vc)).2) (-(2 * (r - vr) + (posOff 1 (r - vr) (c - vc)).1)) 1 0 ∧
+       0 < cross 1 0 (2 * (c - vc) + (posOff (-1) (r - vr) (c - vc)).2) (-(2 * (r - vr) + (posOff (-1) (r - vr) (c - vc)).1))) := by
+  rw [initial_iff_span_contains_bearing_zero (r - vr) (c - vc) (by omega), mem_initialCols]
+  omega
+
+/-- **a corner elevation depends only on the (at most) four cells meeting at that corner**: two terrains that agree on the
+    cell, on its two edge neighbours towards the corner and on the diagonal neighbour give the same corner elevation;
+    these four cells are the 2 x 2 block around the corner point `_calc_event_pos` returns (`nbOff = posOff`, each ±1) -/
+theorem corner_elevation_local (T T' : Int → Int → Rat) (h w vr vc ty row col : Int)
+    (h1 : T row col = T' row col)
+    (h2 : T (row + (nbOff ty (row - vr) (col - vc)).1) col = T' (row + (nbOff ty (row - vr) (col - vc)).1) col)
+    (h3 : T row (col + (nbOff ty (row - vr) (col - vc)).2) = T' row (col + (nbOff ty (row - vr) (col - vc)).2))
+    (h4 : T (row + (nbOff ty (row - vr) (col - vc)).1) (col + (nbOff ty (row - vr) (col - vc)).2) =
+          T' (row + (nbOff ty (row - vr) (col - vc)).1) (col + (nbOff ty (row - vr) (col - vc)).2)) :
+    cornerElev T h w vr vc ty row col = cornerElev T' h w vr vc ty row col := by
+  simp only [cornerElev, h1, h2, h3, h4]
+
+theorem corner_cells_are_the_block_at_the_corner (ty dr dc : Int) (hty : ty = 1 ∨ ty = -1) (hne : dr ≠ 0 ∨ dc ≠ 0) :
+    nbOff ty dr dc = posOff ty dr dc ∧ ((nbOff ty dr dc).1 = 1 ∨ (nbOff ty dr dc).1 = -1) ∧
+      ((nbOff ty dr dc).2 = 1 ∨ (nbOff ty dr dc).2 = -1) := by
+  rw [nbOff_eq_posOff ty dr dc hty]
+  obtain ⟨a, b, c, d, _⟩ := enter_corner_smallest_exit_corner_largest dr dc hne
+  rcases hty with rfl | rfl
+  · exact ⟨rfl, a, b⟩
+  · exact ⟨rfl, c, d⟩
+
+/-- the value: the mean of the four cells when the diagonal neighbour is inside the raster, the cell's own elevation at the border -/
+theorem corner_elevation_value (T : Int → Int → Rat) (h w vr vc ty row col : Int) :
+    let r1 := row + (nbOff ty (row - vr) (col - vc)).1
+    let c1 := col + (nbOff ty (row - vr) (col - vc)).2
+    (0 ≤ r1 ∧ r1 < h ∧ 0 ≤ c1 ∧ c1 < w →
+      cornerElev T h w vr vc ty row col = (T r1 c1 + T r1 col + T row c1 + T row col) / 4) ∧
+    (¬(0 ≤ r1 ∧ r1 < h ∧ 0 ≤ c1 ∧ c1 < w) → cornerElev T h w vr vc ty row col = T row col) := by
+  intro r1 c1
+  constructor
+  · intro hin; simp only [cornerElev]; rw [if_pos hin]
+  · intro hout; simp only [cornerElev]; rw [if_neg hout]
+
+/-- **the observer-row buffer that seeds the status structure holds the corner elevations**: column `j` of `data` carries
+    exactly the three elevations of the events of cell `(vr, j)`; the observer's own column its centre elevation -/
+theorem initial_fill_uses_corner_elevations (T : Int → Int → Rat) (h w : Nat) (vr vc : Int) (j : Nat) (hj : j < w) :
+    (dataRow T h w vr vc)[j]? = some
+      (if (j : Int) = vc then (T vr vc, T vr vc, T vr vc)
+       else ((mkEvent T h w vr vc vr j 1).e0, (mkEvent T h w vr vc vr j 0).e1, (mkEvent T h w vr vc vr j (-1)).e2)) := by
+  simp only [dataRow, List.getElem?_map, List.getElem?_range hj, Option.map_some, mkEvent]
+
+/-- ... and this is what the source does (facts read from `_init_event_list` on every run): the only writes to `data` that
+    survive for a non-observer column come after both `_calc_event_elev` calls and store ENTER / CENTER / EXIT elevation
+    in rows 0 / 1 / 2; the observer's own column keeps the centre elevation written before the `continue` -/
+theorem init_fill_buffer_written_after_corner_elevations :
+    Gen.Viewshed.dataWritesAfterElevs = [(0, "E_ELEV_0"), (1, "E_ELEV_1"), (2, "E_ELEV_2")] ∧
+    Gen.Viewshed.dataWritesBeforeSkip = [(0, "E_ELEV_1"), (1, "E_ELEV_1"), (2, "E_ELEV_1")] ∧
+    Gen.Viewshed.dataWriteGuards = ["i == vp_row"] := by decide
+
+/-- the shape of `_calc_event_elev` in the source: neighbour from `_calculate_event_row_col`, own elevation by default and
+    when a NaN is met, the in-raster guard, the 2 x 2 block read through the three-row window, the mean of four -/
+theorem corner_elevation_source_shape :
+    Gen.Viewshed.cornerElevNeighbour =
+      "(row1, col1) = _calculate_event_row_col(event_type, event_row, event_col, viewpoint_row, viewpoint_col)" ∧
+    Gen.Viewshed.cornerElevDefault = "inrast[1][event_col]" ∧
+    Gen.Viewshed.cornerElevGuard = "0 <= row1 < n_rows and 0 <= col1 < n_cols" ∧
+    Gen.Viewshed.cornerElevReads = ["inrast[row1 - event_row + 1][col1]", "inrast[row1 - event_row + 1][event_col]",
+      "inrast[1][col1]", "inrast[1][event_col]"] ∧
+    Gen.Viewshed.cornerElevNanFallback = "inrast[1][event_col]" ∧
+    Gen.Viewshed.cornerElevMean = "(elev1 + elev2 + elev3 + elev4) / 4.0" := by decide
+
+/-- the key of every cell other than the observer's -- its squared map distance -- is positive for non-degenerate cell sizes:
+    no status node ever collides with the permanent dummy (key 0), as `leaf_insert_preserves` requires -/
+theorem key_positive_off_observer (ew ns : Rat) (vr vc row col : Int) (hew : ew ≠ 0) (hns : ns ≠ 0)
+    (hne : row ≠ vr ∨ col ≠ vc) : 0 < key ew ns vr vc row col :=
+  key_pos ew ns vr vc row col hew hns hne
+
+/-- **the event order is a sort**: the model of `np.lexsort((type, bearing))` -- bearing in [0, 2π) compared exactly by half
+    plane and cross product, ties by the type code EXIT < CENTER < ENTER -- returns a permutation of the generated events
+    in which every earlier event is `≤` every later one (the comparison is a total preorder on ALL events) -/
+theorem events_sorted (T : Int → Int → Rat) (h w : Nat) (vr vc : Int) :
+    (sortedEvents T h w vr vc).Perm (eventList T h w vr vc) ∧
+    (sortedEvents T h w vr vc).Pairwise (fun a b => evLe vr vc a b = true) :=
+  ⟨sortedEvents_perm T h w vr vc, sortedEvents_pairwise T h w vr vc⟩
+
+/-- **within the sweep a cell's events come as ENTER, CENTER, EXIT** (entering corner < centre < exiting corner as bearings
+    in [0, 2π)); the cells on the east ray are the exception the initial fill exists for: CENTER (bearing 0) first, then
+    EXIT, and ENTER at the very end of the sweep.  For all raster sizes, observer positions, terrains. -/
+theorem cell_events_in_sweep_order (T : Int → Int → Rat) (h w : Nat) (vr vc r c : Int) :
+    (sortedEvents T h w vr vc).filter (ofCell r c) =
+      if 0 ≤ r ∧ r < h ∧ 0 ≤ c ∧ c < w ∧ ¬(r = vr ∧ c = vc) then
+        (if r = vr ∧ vc < c
+         then [mkEvent T h w vr vc r c 0, mkEvent T h w vr vc r c (-1), mkEvent T h w vr vc r c 1]
+         else [mkEvent T h w vr vc r c 1, mkEvent T h w vr vc r c 0, mkEvent T h w vr vc r c (-1)])
+      else [] :=
+  sortedEvents_filter_cell_int T h w vr vc r c
+
+/-- **the status-structure operations of one cell over initial fill + sweep** (1 insert, 0 query, -1 delete):
+    insert, query, delete for every cell off the east ray; initial insert, query, delete, insert for the cells on it (the
+    second insertion, at the cell's ENTER event just below 2π, is never undone -- the sweep ends there); nothing for the
+    observer's cell.  So every cell is deleted exactly once and queried exactly once, between an insertion and that deletion. -/
+theorem cell_operation_sequence (T : Int → Int → Rat) (h w : Nat) (vr vc : Int) (hobs : 0 ≤ vr ∧ vr < h) (r c : Int) :
+    kinds (sweepOps T h w vr vc) r c =
+      if 0 ≤ r ∧ r < h ∧ 0 ≤ c ∧ c < w ∧ ¬(r = vr ∧ c = vc) then
+        (if r = vr ∧ vc < c then [1, 0, -1, 1] else [1, 0, -1])
+      else [] :=
+  kinds_sweepOps T h w vr vc hobs r c
+
+/-- each cell of the raster other than the observer's is deleted exactly once, queried exactly once, and inserted exactly once
+    before that -- the cells of the east ray a second time after it -/
+theorem insert_delete_counts (T : Int → Int → Rat) (h w : Nat) (vr vc : Int) (hobs : 0 ≤ vr ∧ vr < h) (r c : Int)
+    (hin : 0 ≤ r ∧ r < h ∧ 0 ≤ c ∧ c < w ∧ ¬(r = vr ∧ c = vc)) :
+    (kinds (sweepOps T h w vr vc) r c).count (-1) = 1 ∧ (kinds (sweepOps T h w vr vc) r c).count 0 = 1 ∧
+    (kinds (sweepOps T h w vr vc) r c).count 1 = (if r = vr ∧ vc < c then 2 else 1) ∧
+    (kinds (sweepOps T h w vr vc) r c).take 3 = [1, 0, -1] := by
+  rw [kinds_sweepOps T h w vr vc hobs, if_pos hin]
+  split <;> decide
+
+/-- **the active-set discipline**: replaying the initial fill and then the sorted events, every insertion is of a cell that is
+    not in the status structure and every deletion and every query is of a cell that is -- so the key a query or a deletion
+    looks up is present (what `query_decides` / `delete_preserves_*` assume), and no cell is ever in the structure twice -/
+theorem sweep_discipline (T : Int → Int → Rat) (h w : Nat) (vr vc : Int) (hobs : 0 ≤ vr ∧ vr < h) :
+    replay [] (sweepOps T h w vr vc) = true :=
+  replay_sweepOps T h w vr vc hobs
+
+/-- ... and the initial fill is what makes it hold: without it, as soon as there is a cell east of the observer, the first
+    event of the sweep queries a cell that is not in the structure -/
+theorem sweep_without_initial_fill_breaks (T : Int → Int → Rat) (h w : Nat) (vr vc : Int) (hobs : 0 ≤ vr ∧ vr < h)
+    (heast : 0 ≤ vc ∧ vc + 1 < w) : replay [] ((sortedEvents T h w vr vc).map opOfEvent) = false := by
+  rw [Bool.eq_false_iff]
+  intro hrep
+  have := (replay_iff _ _).mp hrep vr (vc + 1)
+  rw [kinds_map_opOfEvent, sortedEvents_filter_cell_int, if_pos (by omega), if_pos (by omega)] at this
+  obtain ⟨k1, k0, km⟩ := kind_opOfEvent_mkEvent T h w vr vc vr (vc + 1)
+  simp only [List.map_cons, List.map_nil, k1, k0, km] at this
+  have hc : ([] : List (Int × Int)).contains (vr, vc + 1) = false := rfl
+  rw [hc] at this
+  exact absurd this (by decide)
+
+/-- non-vacuity: instances on a 3 x 4 raster seen from (1, 1) -/
+example : replay [] (sweepOps (fun i j => (i * j : Int)) 3 4 1 1) = true ∧
+    replay [] ((sortedEvents (fun i j => (i * j : Int)) 3 4 1 1).map opOfEvent) = false :=
+  ⟨sweep_discipline _ 3 4 1 1 (by decide), sweep_without_initial_fill_breaks _ 3 4 1 1 (by decide) (by decide)⟩
+
+end Events
 
 end XrsVerif.C05
